@@ -108,6 +108,18 @@ class Recorder:
     def _cstate(self, c):
         out = {"cf": {}, "del": {}, "info": []}
         bmax = c["bmax"] if c else 0
+        info = c["info"] if c else []
+
+        def kind_ok(pos, h):
+            """while a hash migration is in progress a hash recorded at a marked position is one of the previous hash function
+            (the observer tags it P), at any other position one of the current function; anything else is junk"""
+            rh = pos < len(info) and info[pos] is not None and info[pos]["rh"]
+            if isinstance(h, list) and h and h[0] == "P":
+                return h[1] if rh else ["U", "prevkind-" + vs(h[1])]
+            if rh and not isinstance(h, str) and not (isinstance(h, list) and h and h[0] == "U"):
+                return ["U", "newkind-" + vs(h)]
+            return h
+
         for d in self.D:
             cf = {}
             dl = ["NONE"] * bmax
@@ -115,9 +127,9 @@ class Recorder:
                 for name, f in c["files"][d].items():
                     self.names.add(name)
                     cf[name] = {"sz": f["sz"], "mt": f["mt"],
-                                "bl": [{"pos": p, "st": s, "h": self.hs(h)} for p, s, h in f["bl"]]}
+                                "bl": [{"pos": p, "st": s, "h": self.hs(kind_ok(p, h))} for p, s, h in f["bl"]]}
                 for p, h in c["del"][d].items():
-                    dl[int(p)] = self.hs(h)
+                    dl[int(p)] = self.hs(kind_ok(int(p), h))
             out["cf"][d] = cf
             out["del"][d] = dl
         if c:
@@ -125,7 +137,10 @@ class Recorder:
                 if e is None:
                     out["info"].append({"p": False, "t": 0, "bad": False, "js": False})
                 else:
-                    out["info"].append({"p": True, "t": e["t"] - BASE_TIME, "bad": e["bad"], "js": e["js"]})
+                    rec = {"p": True, "t": e["t"] - BASE_TIME, "bad": e["bad"], "js": e["js"]}
+                    if e.get("rh"):
+                        rec["rh"] = True
+                    out["info"].append(rec)
         return out
 
     def digests(self):
@@ -283,9 +298,61 @@ class Recorder:
                         ext["blocks"] += vals
         return ext
 
-    def fix(self, *flags, sel=None, imp_stamp=None, imp_content=None):
+    @staticmethod
+    def filter_match(patterns, name):
+        """-f patterns without glob characters: NAME (base name of a file), /PATH (whole path), DIR/ (any directory on the path)"""
+        parts = name.split("/")
+        for p in patterns:
+            if p.endswith("/"):
+                if p[:-1] in parts[:-1]:
+                    return True
+            elif p.startswith("/"):
+                if p[1:] == name:
+                    return True
+            elif p == parts[-1]:
+                return True
+        return False
+
+    def filter_args(self, filt):
+        """command line and the record handed to the specification for the filters of check and fix"""
+        from arr import LEVELS
+        pre = self.lines[-1]["state"]["cf"]
+        filt = dict(filt)
+        disks = [str(d) for d in filt.get("disks", [])]
+        plevels = list(filt.get("plevels", []))
+        pats = list(filt.get("names", []))
+        argv = []
+        for d in disks:
+            argv += ["-d", self.a.conf.disk_names[int(d)]]
+        for l in plevels:
+            argv += ["-d", LEVELS[l - 1]]
+        for p in pats:
+            argv += ["-f", p]
+        if filt.get("missing"):
+            argv.append("-m")
+        bad = filt.get("bad", "no")
+        if bad != "no":
+            argv.append("-e" if bad == "file" else "-b")
+        rec = {"disks": disks, "plevels": plevels, "usenames": bool(pats),
+               "names": {d: sorted(n for n in pre[d] if self.filter_match(pats, n)) for d in self.D},
+               "missing": bool(filt.get("missing")),
+               "exists": {d: sorted(n for n in pre[d] if os.path.lexists(self.a.path(int(d), n))) for d in self.D},
+               "bad": bad, "patterns": pats}
+        pex = (set(range(1, self.a.conf.np + 1)) - set(plevels)) if (disks or plevels) else \
+            (set(range(1, self.a.conf.np + 1)) if (pats or filt.get("missing")) else set())
+        return argv, rec, pex
+
+    def fix(self, *flags, sel=None, imp_stamp=None, imp_content=None, filt=None):
         ext = self.project_import(imp_stamp, imp_content)
         extra = (["-i", imp_stamp] if imp_stamp else []) + (["--test-import-content", imp_content] if imp_content else [])
+        present = list(range(1, self.a.conf.np + 1))
+        frec = None
+        if filt:
+            fargv, frec, pex = self.filter_args(filt)
+            extra += fargv
+            # parity files that the filters exclude are only read: a missing one is not there for this run
+            here = self.present_levels()
+            present = [l for l in present if l not in pex or l in here]
         r = self.a.run("fix", *flags, *extra)
         self.last_result = r
         st = self.state()
@@ -298,8 +365,10 @@ class Recorder:
                "disappeared": "disappeared" in r.err}
         if sel is None:
             sel = {d: sorted(self.lines[-1]["state"]["cf"][d].keys()) for d in self.D}
-        self.lines.append({"e": "Fix", "args": {"present": list(range(1, self.a.conf.np + 1)), "sel": sel,
-                                                "flags": list(flags), "range": _range(flags), "ext": ext}, "state": st, "out": out})
+        args = {"present": present, "sel": sel, "flags": list(flags), "range": _range(flags), "ext": ext}
+        if frec:
+            args["flt"] = frec
+        self.lines.append({"e": "Fix", "args": args, "state": st, "out": out})
         return r, out
 
     def _fault_info(self, r, st):
@@ -380,6 +449,16 @@ class Recorder:
         out = {"rc": r.rc, "files": files, "links": links}
         self.lines.append({"e": "List", "args": {}, "state": self.state(), "out": out})
         return r, out
+
+    def rehash(self):
+        """snapraid rehash, run without the option that pins the hash function of the array (so that the best one of the
+        platform differs from the one in use)"""
+        c = next((x for x in self.last["cont"] if isinstance(x, dict)), None)
+        best = c is None or c["hk"] == "spooky2"
+        r = self.a.run("rehash", hashflag=False)
+        self.last_result = r
+        self.lines.append({"e": "Rehash", "args": {"best": best}, "state": self.state(), "out": {"rc": r.rc}})
+        return r, {"exit": "ok" if r.rc == 0 else "rc%d" % r.rc}
 
     def touch(self):
         r = self.a.run("touch")
